@@ -40,8 +40,15 @@ def oracle_cases(tier, rng):
                     yield dict(kind='2d', wave=wn, J=J, H=H, W=W, seed=int(rng.integers(1 << 30)))
 
 
+    # one orthogonal wavelet per axis (the 4-tuple form): the column and the row bank must not be exchanged anywhere, backward included
+    for (wc, wr) in [('db2', 'db4'), ('coif1', 'sym4'), ('haar', 'db3'), ('db3', 'db2')]:
+        for J in (1, 2):
+            Lc, Lr = pywt.Wavelet(wc).dec_len, pywt.Wavelet(wr).dec_len
+            yield dict(kind='2d', wave=wc, wave_row=wr, J=J, H=(Lc + 2) * 2 ** (J - 1), W=Lr * 2 ** (J - 1) + (2 ** J), seed=int(rng.integers(1 << 30)))
+
+
 def strat_key(cfg):
-    return '%s/%s/J%d' % (cfg['kind'], cfg['wave'], cfg['J'])
+    return '%s/%s%s/J%d' % (cfg['kind'], cfg['wave'], '+' + cfg['wave_row'] if cfg.get('wave_row') else '', cfg['J'])
 
 
 def oracle_run(cfg):
@@ -50,8 +57,12 @@ def oracle_run(cfg):
     wn, J = cfg['wave'], cfg['J']
     d1 = cfg['kind'] == '1d'
     shp = (1, 1, cfg['N']) if d1 else (1, 1, cfg['H'], cfg['W'])
-    fwd = (DWT1DForward if d1 else DWTForward)(J=J, wave=wn, mode='periodization')
-    inv = (DWT1DInverse if d1 else DWTInverse)(wave=wn, mode='periodization')
+    wdec, wrec = wn, wn
+    if cfg.get('wave_row'):
+        a, bq = pywt.Wavelet(wn), pywt.Wavelet(cfg['wave_row'])
+        wdec = (a.dec_lo, a.dec_hi, bq.dec_lo, bq.dec_hi); wrec = (a.rec_lo, a.rec_hi, bq.rec_lo, bq.rec_hi)
+    fwd = (DWT1DForward if d1 else DWTForward)(J=J, wave=wdec, mode='periodization')
+    inv = (DWT1DInverse if d1 else DWTInverse)(wave=wrec, mode='periodization')
     n = int(np.prod(shp))
     flat = lambda yl, yh: torch.cat([yl.reshape(-1)] + [h.reshape(-1) for h in yh])
     with torch.no_grad():
@@ -73,8 +84,10 @@ def oracle_run(cfg):
             Scols.append(inv((parts[0], parts[1:])).reshape(-1))
         S = torch.stack(Scols, 1)
     # tolerance: how orthonormal the PyWavelets filters themselves are
-    w = pywt.Wavelet(wn); dl = np.array(w.dec_lo)
-    defect = max(abs(sum(dl[k] * dl[k + 2 * s] for k in range(len(dl)) if 0 <= k + 2 * s < len(dl)) - (s == 0)) for s in range(-len(dl) // 2, len(dl) // 2 + 1))
+    defect = 0.0
+    for wname in [wn] + ([cfg['wave_row']] if cfg.get('wave_row') else []):
+        dl = np.array(pywt.Wavelet(wname).dec_lo)
+        defect = max(defect, max(abs(sum(dl[k] * dl[k + 2 * s] for k in range(len(dl)) if 0 <= k + 2 * s < len(dl)) - (s == 0)) for s in range(-len(dl) // 2, len(dl) // 2 + 1)))
     tol = 1e-9 + 50 * J * (2 if not d1 else 1) * defect
     I = torch.eye(n, dtype=torch.float64)
     for name, M in (('A^T A - I', A.t() @ A - I), ('A A^T - I', A @ A.t() - I), ('S - A^T', S - A.t())):
